@@ -6,6 +6,10 @@
 (*                (node ids 1..n, 0 = None edge, acc = AccumulateGrad ids) *)
 (*   jobs       - the (roots, excluded) pairs the statement of C12 implies *)
 (*                for the omitted arguments                                *)
+(*   accdt      - element type of the leaf of every AccumulateGrad node    *)
+(*                (aligned with acc); the call must be inside the universe *)
+(*                LeafWalk!InUniverse: the leaves aggregated together      *)
+(*                (first set) have one element type, else MACHINERY        *)
 (*   twin       - the same sets computed by the harness' own reference     *)
 (*                traversal of the real graph (machinery cross-check)      *)
 (*   obs        - what the defaulted call did: status ok | rejected |      *)
@@ -59,6 +63,12 @@ AllSets   == UNION {results[j] : j \in 1..Len(results)}
 TwinAgrees == /\ Len(E.twin) = Len(results)
               /\ \A j \in 1..Len(results) : Range(E.twin[j]) = results[j]
 
+\* universe: the parameters aggregated together (inputs / shared_params) have one element type
+DtOf(n) == E.accdt[CHOOSE k \in 1..Len(E.acc) : E.acc[k] = n]
+TInUniverse == /\ Len(E.accdt) = Len(E.acc)
+               /\ \A k \in 1..Len(E.acc) : E.accdt[k] \in LeafDTs
+               /\ (TOverlap \/ \A a, b \in SharedSet : DtOf(a) = DtOf(b))
+
 Clause == IF TOverlap THEN (IF E.obs.status = "rejected" THEN "none"
                             ELSE "overlapping_default_sets_not_rejected")
           ELSE IF E.obs.status # "ok" THEN "defaulted_call_raised"
@@ -71,8 +81,9 @@ NextEp == /\ ep' = ep + 1 /\ stage' = "load"
 
 TVerdict ==
     /\ stage = "walk" /\ pc = "Done"
-    /\ IF ~TwinAgrees
-       THEN /\ PrintT(<<"MACHINERY", ToJson([ep |-> E.ep, spec |-> results, twin |-> E.twin])>>)
+    /\ IF ~TwinAgrees \/ ~TInUniverse
+       THEN /\ PrintT(<<"MACHINERY", ToJson([ep |-> E.ep, spec |-> results, twin |-> E.twin,
+                                              universe |-> TInUniverse])>>)
             /\ nMach' = nMach + 1 /\ UNCHANGED <<nAcc, nRej, nDrift>>
        ELSE IF Clause = "none"
        THEN nAcc' = nAcc + 1 /\ UNCHANGED <<nRej, nMach, nDrift>>
